@@ -22,6 +22,11 @@ use rand::distributions::Distribution as _;
 use rand::{RngCore, SeedableRng};
 use std::sync::Arc;
 
+/// the statistics library panics on some extreme parameters; such a call has no result
+pub(crate) fn no_panic<V>(f: impl FnOnce() -> V) -> Option<V> {
+    std::panic::catch_unwind(std::panic::AssertUnwindSafe(f)).ok()
+}
+
 /// copy-paste of the inverse cdf algorithm from statrs, but with more precision
 fn deep_inverse_cdf<K: Float, T: Float, S: ContinuousCDF<K, T>>(s: &S, p: T) -> K {
     if p == T::zero() {
@@ -463,7 +468,10 @@ pub(crate) fn add_contdist_cdf<W, R, T>(
             let a1 = xraise!(eval(&args[1], ns, &rt)?);
             let d0 = to_native!(a0, XContinuousDistribution);
             let f1 = to_primitive!(a1, Float);
-            let ret = xraise!(XValue::float(d0.cdf(*f1), &rt)?);
+            let Some(ret) = no_panic(|| d0.cdf(*f1)) else {
+                return xerr(ManagedXError::new("value out of bounds", rt)?);
+            };
+            let ret = xraise!(XValue::float(ret, &rt)?);
             Ok(ManagedXValue::new(ret, rt)?.into())
         }),
     )
@@ -480,7 +488,10 @@ pub(crate) fn add_contdist_pdf<W, R, T>(
             let a1 = xraise!(eval(&args[1], ns, &rt)?);
             let d0 = to_native!(a0, XContinuousDistribution);
             let f1 = to_primitive!(a1, Float);
-            let ret = xraise!(XValue::float(d0.pdf(*f1), &rt)?);
+            let Some(ret) = no_panic(|| d0.pdf(*f1)) else {
+                return xerr(ManagedXError::new("value out of bounds", rt)?);
+            };
+            let ret = xraise!(XValue::float(ret, &rt)?);
             Ok(ManagedXValue::new(ret, rt)?.into())
         }),
     )
@@ -500,7 +511,7 @@ pub(crate) fn add_contdist_quantile<W, R, T>(
             if *f1 > 1.0 || *f1 < 0.0 {
                 return xerr(ManagedXError::new("quantile must be between 0 and 1", rt)?);
             }
-            let ret = d0.quantile(*f1);
+            let ret = no_panic(|| d0.quantile(*f1)).unwrap_or(f64::NAN);
             if !ret.is_finite() {
                 return xerr(ManagedXError::new("value out of bounds", rt)?);
             }
@@ -586,7 +597,9 @@ pub(crate) fn add_contdist_sample<W, R: SeedableRng + RngCore, T>(
             let Some(i1) = to_primitive!(a1, Int).to_usize() else { return xerr(ManagedXError::new("count out of bounds", rt)?); };
             rt.limits.check_permission(&builtin_permissions::RANDOM)?;
             rt.can_allocate(i1*size_of::<usize>())?;
-            let nums = d0.sample(i1, rt.stats.borrow_mut().get_rng());
+            let Some(nums) = no_panic(|| d0.sample(i1, rt.stats.borrow_mut().get_rng())) else {
+                return xerr(ManagedXError::new("value out of bounds", rt)?);
+            };
             let nums = xraise!(nums.into_iter().map(|v| {
                 let v = forward_err!(XValue::float(v, &rt)?);
                 Ok(Ok(ManagedXValue::new(v, rt.clone())?))
